@@ -881,6 +881,7 @@ fn main() {
         let mut frag = String::new();
         if ns == "InflCore" { fragment_geometry(&g, &fns, spec, &mut frag, &mut errors, &mut manifest, &mut add_manifest); if !frag.is_empty() { defs.push(("Gen.InflCore.geometry_rejects".into(), frag.clone())); } }
         if ns == "DeflCore" { fragment_routing(&g, &fns, spec, &mut frag, &mut errors, &mut manifest, &mut add_manifest); if !frag.is_empty() { defs.push(("Gen.DeflCore.route".into(), frag.clone())); }
+            structural_consts(&fns, spec, &mut defs, &mut errors);
             let mut frag2 = String::new();
             fragment_guard(&g, &fns, spec, &mut frag2, &mut errors, &mut manifest, &mut add_manifest); if !frag2.is_empty() { defs.push(("Gen.DeflCore.guard_rejects".into(), frag2)); } }
     }
@@ -1027,6 +1028,51 @@ fn fragment_guard(g: &Global, fns: &[FnSrc], spec: &ModSpec, out: &mut String, e
     writeln!(out, "-- fragment: usage guard of compress_inner ({}:{}); true = BadParam", spec.path, f.span.start().line).unwrap();
     writeln!(out, "def Gen.DeflCore.guard_rejects (d_params_prev_return_status : Int) (d_params_flush : Int) (flush : Int) : Bool := Id.run do\n{}\n", body.join("\n")).unwrap();
     add(spec.path, "fragment guard_rejects", f.span, &text, manifest);
+}
+
+/// Integer literals that shape loops and calls in untranslated functions, extracted so that
+/// theorems about buffer capacities quantify over what the source says now:
+///  * `LZ_LITERAL_BATCH`: the bound N of the `for _ in 0..N` literal-batching loop in `compress_lz_codes`;
+///  * `DYN_CODE_SIZE_LIMITS`: the code-size limits passed to `optimize_table` in `start_dynamic_block`;
+///  * `STATIC_CODE_SIZE_LIMITS`: the same for `start_static_block`.
+fn structural_consts(fns: &[FnSrc], spec: &ModSpec, defs: &mut Vec<(String, String)>, errors: &mut Vec<String>) {
+    use syn::visit::Visit;
+    struct V { fors: Vec<i128>, opt_args: Vec<i128> }
+    impl<'ast> Visit<'ast> for V {
+        fn visit_expr_for_loop(&mut self, f: &'ast ExprForLoop) {
+            if let Expr::Range(r) = &*f.expr {
+                if let (Some(lo), Some(hi)) = (&r.start, &r.end) {
+                    if let (Expr::Lit(ExprLit { lit: Lit::Int(a), .. }), Expr::Lit(ExprLit { lit: Lit::Int(b), .. })) = (&**lo, &**hi) {
+                        if a.base10_parse::<i128>().ok() == Some(0) { if let Ok(n) = b.base10_parse::<i128>() { self.fors.push(n); } }
+                    }
+                }
+            }
+            syn::visit::visit_expr_for_loop(self, f);
+        }
+        fn visit_expr_method_call(&mut self, m: &'ast ExprMethodCall) {
+            if m.method == "optimize_table" {
+                if let Some(Expr::Lit(ExprLit { lit: Lit::Int(a), .. })) = m.args.iter().nth(2) { if let Ok(n) = a.base10_parse::<i128>() { self.opt_args.push(n); } }
+                else { self.opt_args.push(-1); }
+            }
+            syn::visit::visit_expr_method_call(self, m);
+        }
+    }
+    let mut get = |name: &str| -> Option<V> {
+        let f = fns.iter().find(|f| f.key.ends_with(name))?;
+        let mut v = V { fors: vec![], opt_args: vec![] };
+        v.visit_block(f.block);
+        Some(v)
+    };
+    match get("compress_lz_codes") {
+        Some(v) if v.fors.len() == 1 => defs.push(("Gen.DeflCore.LZ_LITERAL_BATCH".into(), format!("-- structural constant: bound of the literal batching loop in compress_lz_codes ({})\ndef Gen.DeflCore.LZ_LITERAL_BATCH : Int := ({}:Int)\n", spec.path, v.fors[0]))),
+        _ => errors.push(format!("{}: compress_lz_codes: expected exactly one `for _ in 0..N` loop", spec.path)),
+    }
+    for (fname, cname) in [("HuffmanOxide::start_dynamic_block", "DYN_CODE_SIZE_LIMITS"), ("HuffmanOxide::start_static_block", "STATIC_CODE_SIZE_LIMITS")] {
+        match get(fname) {
+            Some(v) if !v.opt_args.is_empty() && v.opt_args.iter().all(|&x| x >= 0) => defs.push((format!("Gen.DeflCore.{}", cname), format!("-- structural constant: code size limits passed to optimize_table in {} ({})\ndef Gen.DeflCore.{} : Array Int := #[{}]\n", fname, spec.path, cname, v.opt_args.iter().map(|x| format!("({}:Int)", x)).collect::<Vec<_>>().join(", ")))),
+            _ => errors.push(format!("{}: {}: optimize_table calls with literal limits not found", spec.path, fname)),
+        }
+    }
 }
 
 #[allow(dead_code)]
